@@ -85,13 +85,21 @@ def main():
                 ob["wasm"] = "EXC:" + type(e).__name__
         return ob, r
 
-    for name, src in plan.get("libs", []):
-        ob, r = compile_one(src, {})
-        if r is not None:
-            with open(name + ".nslir", "wb") as f:
-                pickle.dump(r.IRModule, f)
-        result.setdefault("libs", []).append([name, ob["o"]])
+    def build_libs(libs):
+        for name, src in libs:
+            ob, r = compile_one(src, {})
+            if r is not None:
+                with open(name + ".nslir", "wb") as f:
+                    pickle.dump(r.IRModule, f)
+            result.setdefault("libs", []).append([name, ob["o"]])
+
+    build_libs(plan.get("libs", []))
     for src, opts in plan["history"]:
+        if src is None:
+            # the imported libraries are rebuilt (another version) in the middle of the history
+            build_libs(plan["lib_versions"][str(opts["relib"])])
+            result["obs"].append({"o": "relib"})
+            continue
         ob, _r = compile_one(src, opts)
         result["obs"].append(ob)
     _finish(plan, result, refused)
